@@ -385,6 +385,8 @@ theorem normInv (a : Nat → LarkTree) : ∀ e : Expr, known pyOps e = true → 
       | group => simp only [astOf_wrapIf, hl.main, hr.main]
       | unary => simp only [astOf_wrapIf, hl.main, hr.main]
       | arith => simp only [astOf_wrapIf, hl.main, hr.main]
+      | ifexp => simp only [astOf_wrapIf, hl.main, hr.main]
+      | lambda => simp only [astOf_wrapIf, hl.main, hr.main]
     refine ⟨hmain, ?_, ?_⟩
     · intro o₁
       have hn : normalize pyOps (.bin o l r) = .bin o (wrapIf (slotOk pyOps (.bin o) .left (head l)) (normalize pyOps l))
